@@ -264,6 +264,38 @@ class C11Machine(RecordingMixin, RuleBasedStateMachine):
             self.prog = {"n": self.prog["n"], "ops": [*self.prog["ops"], op]}
         self.changed("edit-in-place-at")
 
+    def do_edit_with_param(self, i, slot):
+        """In-place edit that introduces a Parameter the circuit did not contain when it was assigned."""
+        from checks.c08 import user_modes
+        um = user_modes(self.circ)
+        if um < 2 or self.circ.U_full.shape[0] - self.circ.n_modes >= 2:
+            return
+        p = self.params[i % 2]
+        if slot == "reflectivity":
+            if not 0 <= p.get() <= 1:
+                p.set(0.5)
+            self.circ.bs(0, 1, reflectivity=p)
+        elif slot == "loss":
+            if not 0 <= p.get() <= 1:
+                p.set(0.5)
+            self.circ.loss(um - 1, p)
+        else:
+            self.circ.bs(0, 1)
+            self.circ.ps(0, p)
+            self.circ.bs(0, 1)
+        self.prog = None
+        self.changed("edit-in-place-with-parameter")
+
+    def do_quick_pred(self, kind, a):
+        """QuickSampler / Analyzer post-selection given as a function; functions of one kind come from one factory
+        (same code, different closure values)."""
+        n = self.circ.input_modes
+        if n < 1:
+            return
+        pred = {"max-le": ["max-le", 1 + a % 2], "mode-ne": ["mode-ne", a % n, (a // n) % 2],
+                "total-in": ["total-in", [a % n], [(a // n) % 3]]}[kind]
+        self.do_quick_cfg({"pred": pred, "wrap": bool(a % 2)}, self.pc)
+
     def do_scribble_read(self, which, how):
         """The caller post-processes, in place, the dictionary a distribution read handed out (drops the vacuum entry,
         rescales, empties it). That is the caller's object; the sampler's settings have not changed, so it keeps
@@ -306,7 +338,29 @@ class C11Machine(RecordingMixin, RuleBasedStateMachine):
             "backend": ["clifford", "no-such-backend", 3],
             "post_select": ["rule", 3],
             "photon_counting": ["yes", None, 1],
+            "source.indistinguishability": [1.5, -0.2, True, "0.5"],
+            "source.purity": [1.5, 0.2, True, "0.9"],
+            "source.brightness": [1.5, -0.2, True, "1"],
+            "source.probability_threshold": [1.5, -0.2, True, "0"],
+            "detector.efficiency": [1.5, -0.2, "1"],
+            "detector.p_dark": [1.5, -0.2, "0"],
+            "detector.photon_counting": ["yes", None, 1],
         }[attr]
+        if "." in attr:
+            # refused in-place assignment on the Source / Detector object the Sampler holds
+            if which != "sampler":
+                return
+            holder, name = attr.split(".")
+            target = getattr(self.sampler, holder)
+            v = values[k % len(values)]
+            try:
+                setattr(target, name, v)
+            except Exception:  # noqa: BLE001
+                self.info_labels.add("rejected-assignment:" + attr)
+                self.changed("rejected-assignment")
+                return
+            setattr(target, name, (self.src if holder == "source" else self.det)[name])
+            return
         if not hasattr(type(obj), attr):
             return
         v = values[k % len(values)]
@@ -779,6 +833,29 @@ class C11Machine(RecordingMixin, RuleBasedStateMachine):
             self.step("sample", which=sample, seed=seed, n=20)
         self.step("read", which=which)
 
+    @rule(i=st.integers(0, 1), slot=st.sampled_from(["reflectivity", "loss", "phase"]),
+          v=st.sampled_from([0.1, 0.4, 0.75, 1.0, 0.0]), which=st.sampled_from(["sampler", "quick"]),
+          sample=st.sampled_from(["N_inputs", "N_outputs", "quick.N_outputs", None]), seed=st.integers(0, 2 ** 20))
+    def r_edit_with_param_read_set_read(self, i, slot, v, which, sample, seed):
+        """in-place edit bringing a new Parameter -> read -> the parameter changes -> read / sample"""
+        self.step("edit_with_param", i=i, slot=slot)
+        self.step("read", which=which)
+        self.step("set_param", i=i, v=v)
+        if sample:
+            self.step("sample", which=sample, seed=seed, n=20)
+        self.step("read", which=which)
+
+    @rule(kind=st.sampled_from(["max-le", "mode-ne", "total-in"]), a=st.integers(0, 11), b=st.integers(0, 11),
+          sample=st.sampled_from(["quick.N_outputs", "quick.sample", None]), seed=st.integers(0, 2 ** 20))
+    def r_pred_read_pred_read(self, kind, a, b, sample, seed):
+        """post-selection function -> read -> another function of the same kind (same code, other closure) -> read"""
+        self.step("quick_pred", kind=kind, a=a)
+        self.step("read", which="quick")
+        self.step("quick_pred", kind=kind, a=b)
+        if sample:
+            self.step("sample", which=sample, seed=seed, n=20)
+        self.step("read", which="quick")
+
     @rule(which=st.sampled_from(["sampler", "quick"]), how=st.sampled_from(["clear", "pop", "scale"]),
           sample=st.sampled_from(["N_inputs", "N_outputs", "quick.N_outputs", "quick.sample", "sampler.sample", None]),
           seed=st.integers(0, 2 ** 20))
@@ -792,7 +869,10 @@ class C11Machine(RecordingMixin, RuleBasedStateMachine):
 
     @rule(which=st.sampled_from(["sampler", "quick"]),
           attr=st.sampled_from(["input_state", "input_state", "circuit", "source", "detector", "backend", "post_select",
-                                "photon_counting"]), k=st.integers(0, 5),
+                                "photon_counting", "source.indistinguishability", "source.indistinguishability",
+                                "source.purity", "source.brightness", "source.probability_threshold",
+                                "detector.efficiency", "detector.p_dark", "detector.photon_counting"]),
+          k=st.integers(0, 5),
           sample=st.sampled_from(["N_inputs", "N_outputs", "quick.N_outputs", "quick.sample", "sampler.sample", None]),
           seed=st.integers(0, 2 ** 20))
     def r_rejected_assignment_then_use(self, which, attr, k, sample, seed):
